@@ -80,14 +80,12 @@ def trees(tier, seed):
     th = tier == "thorough"
     grans = (1, 2, 3) if th else (1, 2)
     # third flag: the dynamic (range-based) discretisation pass
-    # The combination critical-path + dynamic discretisation is NOT explored: the first
-    # complete thorough run showed the back-end not terminating inside
-    # DiscretizationSelectorOptimizationPass::runPass on trees whose LessThan / Min is
-    # unsatisfiable after the critical-path pass (e.g. LessThan(Choose@5, Choose@2) at
-    # now=3, LessThan(Max(A, B), C) with C too early); the root cause could not be
-    # pinned down to a narrow predicate in time, so it is reported in DESIGN.md 10.6 as
-    # an untriaged observation and nothing is claimed about that combination.
+    # critical-path + dynamic discretisation together: thorough tier only (open finding
+    # strl-dynamic-pass-after-inverted-bounds, attributed through the back-end's own time
+    # bounds, see job())
     pass_sets = [(0, 0, 0), (1, 0, 0), (0, 1, 0), (1, 1, 0), (0, 0, 1)]
+    if th:
+        pass_sets += [(1, 1, 1), (1, 0, 1)]
     for gran in grans:
         menu = leaf_menu(tier, gran)
         maxable = [m for m in menu if m[0] in ("c", "w")]
@@ -399,7 +397,9 @@ def tree_features(tree):
             uncounted.append(n["start"])
     before_first = bool(tree["passes"][2]) and bool(counted) and \
         any(u < min(counted) for u in uncounted)
-    return {"dynamic_pass_leaf_before_first_range": before_first,
+    return {"dynamic_pass_after_inverted_bounds":
+            bool(tree.get("critical_path_left_inverted_bounds")),
+            "dynamic_pass_leaf_before_first_range": before_first,
             "dead_child_under_min_or_lessthan": dead_child,
             "trivially_ordered_lessthan": trivial_lt,
             "min_over_allocations_only": min_alloc_only,
@@ -530,6 +530,23 @@ def job(item, exe):
     stats = {k: 0 for k in STAT_KEYS}
     batch = item if isinstance(item, list) else [item]
     for tree in batch:
+        if tree["passes"][0] and tree["passes"][2]:
+            # what the critical-path pass leaves behind, seen through the back-end
+            # itself: the same tree without the dynamic pass, then the time bounds of
+            # its leaves (an unsatisfiable leaf keeps *inverted* bounds)
+            pre = dict(tree, passes=(tree["passes"][0], tree["passes"][1], 0))
+            inv = False
+            try:
+                d0 = drv.load(pre)
+                for i, n in enumerate(tree["nodes"]):
+                    tb = d0.get("time_bounds", {}).get(str(i))
+                    if tb and n["kind"] in ("choose", "windowed", "allocation") and \
+                            (tb[0] > tb[1] or tb[2] > tb[3] or tb[0] > tb[3]):
+                        inv = True
+            except S.DriverHang:
+                drv = S.Driver(exe)
+                _DRV[exe] = drv
+            tree["critical_path_left_inverted_bounds"] = inv
         try:
             explore_tree(tree, drv, out, stats)
         except S.DriverHang as e:
